@@ -239,7 +239,7 @@ def run(ctx):
     n = 60 if ctx.tier == 'quick' else 800
     for k in range(n):
         one_case(ctx, k)
-        if ctx.n_new() >= 3:
+        if ctx.n_new(with_input_only=True) >= 3:
             break
     # argument guards
     rs = np.random.RandomState(1)
